@@ -36,6 +36,8 @@ def _pool(rng):
 
 
 def _data(rng):
+    if rng.random() < 0.04:
+        return rng.choice(['nan', 'inf', '-inf'])     # passed through to the causal function as they are
     q = rng.randrange(-30, 60) if rng.random() < 0.9 else rng.randrange(2 ** 40, 2 ** 41)
     return 3 * q + rng.choice([0, 1, 1, 2] if rng.random() < 0.5 else [0, 1])
 
@@ -96,7 +98,29 @@ def _hdr(states):
     return 'states ' + ','.join(f'{s}/{d}/{k}' for s, d, k in states)
 
 
+def scale():
+    """tables far larger than the random histories build: 100 / 300 registered ids (registered id != CausalState::id), then
+    removals down to a handful with a full probe in between (hash-table growth and shrink thresholds)"""
+    states = [(j % 7, 3 * (j + 1) + (1 if j % 4 else 0), j % 2) for j in range(10)]
+    for n in (100, 300):
+        ops = ['new 0:0']
+        keys = [1000 + 7 * i for i in range(n)]
+        for i, k in enumerate(keys):
+            ops.append(f'add {k} {i % 10} {i % 8}')
+        ops += ['len', 'evalall'] + [f'evals {k} {3 * i + 1}' for i, k in enumerate(keys[:n:9])]
+        for i, k in enumerate(keys):
+            if i % 10 != 3:
+                ops.append(f'remove {k}')
+                if i % 25 == 0:
+                    ops += ['len', f'evals {keys[3]} 4', f'evals {keys[(i // 10) * 10 + 13] if (i // 10) * 10 + 13 < n else keys[3]} 7']
+        ops += ['len', 'evalall'] + [f'evals {k} 1' for k in keys[3::10]] + [f'evals {keys[0]} 1', 'counts']
+        yield Case(_hdr(states), ops, tags=('scale',))
+    yield Case(_hdr(states), ['new 0:1,1:2', 'evals 0 nan', 'evals 1 nan', 'evals 0 inf', 'evals 1 -inf', 'evals 5 nan', 'counts'],
+               tags=('scale', 'special-values'))
+
+
 def generate(rng, tier):
+    yield from scale()
     ncases = 1200 if tier == 'quick' else 30000
     for n in range(ncases):
         states = _pool(rng)
